@@ -51,7 +51,7 @@ def expand(spec):
     return out, orig
 
 
-def make_plugin(kind, hooks, idx, log, raise_at=None, exc="Boom"):
+def make_plugin(kind, hooks, idx, log, raise_at=None, exc="Boom", seen=None):
     import suds.plugin
     base = {"message": (suds.plugin.MessagePlugin,), "document": (suds.plugin.DocumentPlugin,),
             "init": (suds.plugin.InitPlugin,),
@@ -77,6 +77,8 @@ def make_plugin(kind, hooks, idx, log, raise_at=None, exc="Boom"):
                 elif hook == "sending":
                     context.envelope = context.envelope + ("<!--s%d-->" % idx).encode()
                 elif hook == "received":
+                    if seen is not None:
+                        seen.append(context.reply)
                     if context.reply:
                         context.reply = context.reply.replace(b"</r>", b"+r%d</r>" % idx)
                 elif hook == "parsed":
@@ -91,6 +93,8 @@ def make_plugin(kind, hooks, idx, log, raise_at=None, exc="Boom"):
                     context.reply = "%s+u%d" % (context.reply, idx)
             elif kind == "document" and hook == "loaded":
                 context.document = context.document + ("<!--l%d-->" % idx).encode()
+            # (what a hook returns means nothing: the next plugin's hook runs all the same)
+            return [None, context, True, 0, "done"][(idx + len(hook)) % 5]
         return fn
     for h in hooks:
         ns[h] = mk(h)
@@ -170,8 +174,9 @@ def run(ctx):
                 if spec[ri][1]:
                     raise_at = (ri, rng.choice(spec[ri][1]), rng.choice(sorted(EXC_CLASSES)))
             log = []
+            seen_bytes = []
             plugins = [make_plugin(k, hs, i, log, raise_at[1] if raise_at and raise_at[0] == i else None,
-                                   raise_at[2] if raise_at else "Boom")
+                                   raise_at[2] if raise_at else "Boom", seen=seen_bytes)
                        for i, (k, hs) in enumerate(spec)]
             data = c09.body_bytes(body, "wrapped")
             te = None
@@ -210,6 +215,10 @@ def run(ctx):
             origs.append(orig)
             reqs.append({"op": "plugin.log", "plugins": expanded,
                          "reply": None if nosend else {"status": status, "body": body}, "retxml": retxml})
+            if seen_bytes and seen_bytes[0] != data:
+                ctx.fail("the bytes the transport delivered are not what the first received hook is handed",
+                         {"plugins": [{"kind": KIND_CLASS[k], "hooks": hs} for k, hs in spec], "body": body, "status": status},
+                         repr(seen_bytes[0])[:120], repr(data)[:120])
             reals.append((list(log), ctor_log_len, outcome, tr.sent[-1]["message"] if tr.sent else None))
             metas.append(meta)
     answers = ctx.driver.ask(reqs)
@@ -347,6 +356,31 @@ def doc_checks(ctx):
         ctx.fail("a document plugin registered after the ImportDoctor does not get each opened document's root "
                  "(or its edit did not reach the loader)", {"order": ["ImportDoctor", "DocumentPlugin"]}, seen_roots,
                  ["definitions", "schema"])
+    # the ImportDoctor treats every schema of a document (a WSDL may hold several), and a plugin after it sees them all
+    two = wsdlkit.wsdl_doc('<xsd:element name="f" type="xsd:string"/>', "f", None, extra_schemas=(
+        '<xsd:schema xmlns:xsd="http://www.w3.org/2001/XMLSchema" targetNamespace="urn:second"><xsd:element name="s2" '
+        'type="xsd:string"/></xsd:schema><xsd:schema xmlns:xsd="http://www.w3.org/2001/XMLSchema" '
+        'targetNamespace="urn:third"><xsd:element name="s3" type="xsd:string"/></xsd:schema>'))
+
+    class Counter(suds.plugin.DocumentPlugin):
+        def __init__(self):
+            self.found = []
+
+        def parsed(self, context):
+            for n in context.document.branch():
+                if n.name == "schema":
+                    self.found.append([n.get("targetNamespace"), sorted(c.get("namespace") for c in n.getChildren("import"))])
+    cnt = Counter()
+    ctx.case(("doc", "doctor-over-several-schemas"), True)
+    try:
+        wsdlkit.client(two, plugins=[suds.xsd.doctor.ImportDoctor(suds.xsd.doctor.Import("urn:doctored")), cnt])
+        got = sorted(cnt.found)
+    except Exception as e:
+        got = "%s: %s" % (type(e).__name__, e)
+    want = sorted([[tns_, ["urn:doctored"]] for tns_ in (wsdlkit.TNS, "urn:second", "urn:third")])
+    if got != want:
+        ctx.fail("the ImportDoctor's edit did not reach every schema of the document (or the plugin after it did not "
+                 "see it)", {"order": ["ImportDoctor", "DocumentPlugin"], "schemas": 3}, got, want)
     # warm document cache: parsed fires per opened document, loaded does not (nothing is fetched)
     d = tempfile.mkdtemp(prefix="verif-c16-")
     try:
